@@ -311,7 +311,7 @@ def make_run_script(rng, name, kind=None):
         rng.shuffle(keys)
         for k in keys[: rng.choice([6, 12, n + 4])]:
             c = rng.choice(["insert", "insert", "get", "getkv", "contains", "getmut", "tryinsert", "entry_or_insert", "entry_insert",
-                            "entry_and_modify", "entry_drop", "remove_reinsert", "iter", "len"])
+                            "entry_and_modify", "entry_drop", "remove_reinsert", "iter", "len", "iterfold", "iterfold"])
             if c == "insert":
                 g.op_insert(k)
             elif c in ("get", "getkv", "contains"):
@@ -333,6 +333,8 @@ def make_run_script(rng, name, kind=None):
                 g.emit(f"{c} {k} {g.st()}")
             elif c == "remove_reinsert":
                 g.op_remove(k); g.op_insert(k)
+            elif c == "iterfold":
+                g.emit(f"iterfold {rng.choice([0, 0, 1, 3, len(g.contents) // 2])}")
             else:
                 g.emit(c)
     probes()
